@@ -374,6 +374,10 @@ pub struct Sim {
     progress: AtomicU64,
     blocked: AtomicBool,
     watchdog_s: u64,
+    /// Fast path for hook sites: preemption at hooks is off (or pointless) for
+    /// the current operation; such calls are only counted.
+    hooks_live: AtomicBool,
+    hooks_passed: AtomicU64,
 }
 
 thread_local! {
@@ -568,6 +572,8 @@ impl Sim {
             driver_parker: Arc::new(Parker::new()),
             progress: AtomicU64::new(0),
             blocked: AtomicBool::new(false),
+            hooks_live: AtomicBool::new(false),
+            hooks_passed: AtomicU64::new(0),
         });
         sim
     }
@@ -603,10 +609,16 @@ impl Sim {
         g.cfg.split = split;
         g.cfg.sched = sched;
         g.cfg.preempt_hooks = preempt_hooks;
+        let live = preempt_hooks && g.cfg.pool_sizes[g.active].max(1) > 1 && sched != SchedMode::Seq && sched != SchedMode::Rev;
+        self.hooks_live.store(live, Ordering::Relaxed);
     }
 
     pub fn stats(&self) -> Stats {
-        self.lock().stats.clone()
+        let mut st = self.lock().stats.clone();
+        let passed = self.hooks_passed.load(Ordering::Relaxed);
+        st.hook_yields += passed;
+        st.yields += passed;
+        st
     }
 
     pub fn decisions(&self) -> Vec<u32> {
@@ -1179,16 +1191,56 @@ impl Sim {
 /// A point inside user code at which the scheduler may preempt
 /// (target of the `sched_point` hook of the library under test).
 pub fn sched_point(_site: u32) {
-    if let Some((sim, me)) = current() {
-        if me != DRIVER {
-            sim.yield_point(me, YieldKind::Hook);
+    // hot path: no Arc clone, no lock unless the scheduler is due to look
+    CURRENT.with(|c| {
+        let b = c.borrow();
+        let (sim, me) = match b.as_ref() {
+            Some((sim, _, me)) if *me != DRIVER => (sim, *me),
+            _ => return,
+        };
+        if !sim.hooks_live.load(Ordering::Relaxed) {
+            // same outcome as the slow path (no preemption), without the lock
+            HOOKS_PASSED.with(|h| h.set(h.get() + 1));
+            return;
         }
+        // Hook sites sit in hot loops. The scheduler looks at a hook only after a
+        // number of passes that it drew itself (from the decision stream, so the
+        // execution stays a function of the decisions): 0, 1, 3, ... 255.
+        let skip = HOOK_SKIP.with(|c| c.get());
+        if skip > 0 {
+            HOOK_SKIP.with(|c| c.set(skip - 1));
+            HOOKS_PASSED.with(|h| h.set(h.get() + 1));
+            return;
+        }
+        flush_hooks_passed(sim);
+        sim.yield_point(me, YieldKind::Hook);
+        let d = sim.lock().choose(8);
+        HOOK_SKIP.with(|c| c.set([0u32, 1, 3, 7, 15, 31, 63, 255][d as usize]));
+    });
+}
+
+/// Move this thread's count of cheaply passed hooks into the simulation (also
+/// feeds the watchdog's progress counter).
+fn flush_hooks_passed(sim: &Arc<Sim>) {
+    let n = HOOKS_PASSED.with(|h| h.replace(0));
+    if n > 0 {
+        sim.hooks_passed.fetch_add(n, Ordering::Relaxed);
+        sim.progress.fetch_add(n, Ordering::Relaxed);
     }
+}
+
+thread_local! {
+    static HOOKS_PASSED: std::cell::Cell<u64> = const { std::cell::Cell::new(0) };
+}
+
+thread_local! {
+    static HOOK_SKIP: std::cell::Cell<u32> = const { std::cell::Cell::new(0) };
 }
 
 pub(crate) fn item_boundary(leaf_path: u64, item_no: u64, base_index: u64) {
     if let Some((sim, me)) = current() {
         if me != DRIVER {
+            flush_hooks_passed(&sim);
             {
                 let mut g = sim.lock();
                 g.stats.items += 1;
@@ -1229,6 +1281,7 @@ pub(crate) fn shared_access() {
 pub(crate) fn leaf_end() {
     if let Some((sim, me)) = current() {
         if me != DRIVER {
+            flush_hooks_passed(&sim);
             sim.yield_point(me, YieldKind::LeafEnd);
         }
     }
